@@ -92,6 +92,7 @@ func checkC07(c *Ctx) {
 	// fault-free baseline of every scenario
 	for _, sc := range c.Corpus.List {
 		mk(parseTarget{sc: sc, file: sc.Main}, nil, false, "baseline")
+		mk(parseTarget{sc: sc, file: sc.Main}, nil, true, "baseline-hints")
 	}
 	if c.Tier == "thorough" {
 		// every truncation offset of every text resource
